@@ -8,8 +8,14 @@ the distance of the two adjacent circumcentres, of a boundary edge the distance 
 circumcentre to the edge midpoint; edge vectors, lengths and centres are those of the site
 pairs; triangle areas are the signed areas.  Boundary edges are exactly those in one triangle
 and V - E + T = 1 - holes on the concrete meshes of the family and of real `Device.make_mesh`.
-Cell areas (`compute_voronoi_polygon_areas`: qhull convex hulls, arctan2 ordering) and the
-constrained triangulation itself (Triangle) are outside the claim."""
+Cell areas: the real `Mesh.from_triangulation` / `compute_voronoi_polygon_areas` on an L-shaped mesh
+with a hole under every orientation-preserving similarity (qhull's hull order and the arctan2 ordering
+replaced by models proven valid over that family).  What `generate_mesh` hands to Triangle: for the
+outlines of a film with holes under a symbolic similarity, the vertices are centred on the bounding
+box, every hole marker lies strictly inside its hole in the same frame, the facets are one closed
+cycle per outline and the result is shifted back.  On real `Device.make_mesh` meshes (one far from
+the origin): one inner boundary loop per declared hole, the triangles cover film minus holes.
+The constrained triangulation itself (Triangle) is outside the claim."""
 import numpy as np
 
 from symx import engine, meshes
@@ -32,6 +38,7 @@ ENCODED = [
     "tdgl.finite_volume.util:get_convex_polygon_area",
     "tdgl.finite_volume.util:orient_convex_polygon",
     "tdgl.finite_volume.util:get_voronoi_polygon_indices",
+    "tdgl.device.meshing:generate_mesh",
 ]
 BOUNDS = {
     "quick": dict(patches=["T2", "F5"], coordinates="each site within +-0.1 of its nominal position (orientation preserved)", topology_meshes=["T2", "F5", "F7", "G9", "R8", "device:bar2", "device:holed", "device:holed:shifted"]),
@@ -43,7 +50,7 @@ ASSUMPTIONS = [
 ]
 OUTSIDE = [
     "cell areas beyond the similarity family of the L-shaped mesh (qhull ConvexHull and arctan2 ordering are replaced by models whose combinatorial result is fixed at the nominal mesh and proven valid over the family)",
-    "the constrained triangulation itself (Triangle, C), exact tiling of the domain, smoothing",
+    "the constrained triangulation itself (Triangle, C; in symbolic runs of generate_mesh it is a stub returning the input vertices plus one arbitrary point), exact tiling beyond the enumerated real device meshes, smoothing, the refinement loop of generate_mesh (min_points / max_edge_length)",
     "terminal-length tolerance (matplotlib Path membership, C++)",
 ]
 MERGE = False
